@@ -120,3 +120,16 @@ pub fn isolated<T: Send + 'static>(hash_seed: u64, f: impl FnOnce() -> T + Send 
         }
     }
 }
+
+/// Spawn a thread that waits for quiescence (all other foreground threads done) and then runs
+/// `f` under the scheduler, so that a read which never returns shows up as a stuck run instead
+/// of hanging the harness.
+pub fn spawn_final<F: FnOnce(&Ctx) + Send + 'static>(sim: &Arc<Sim>, f: F) {
+    sim.spawn("final", false, move |ctx| {
+        ctx.wait_quiescent();
+        ctx.invoke(FINAL_OP);
+        f(ctx);
+        ctx.ret(FINAL_OP);
+    });
+}
+pub const FINAL_OP: u32 = 900_000;
